@@ -71,9 +71,9 @@ Fixpoint tins (t : tree) (k : key) (v : val) (p : Z) : tree * bool :=
   end.
 
 (* Delete: the node is rotated down until it is a leaf, each time lifting the
-   child selected by [pick_left] (the one with the smaller priority value,
-   left on ties); what remains in its place is the merge of its two subtrees. *)
-Definition pick_left (lp rp : Z) : bool := lp <=? rp.
+   child selected by [pick_left] (the Go code lifts the one with the LARGER
+   priority value, left on ties, although Put keeps a min-heap); what remains in its place is the merge of its two subtrees. *)
+Definition pick_left (lp rp : Z) : bool := lp >=? rp.
 
 Fixpoint tmerge (l : tree) : tree -> tree :=
   match l with
@@ -314,6 +314,16 @@ Definition force_reseek (it : iter) (t : tree) : iter :=
 
 Definition valid (it : iter) : bool := is_node (i_node it).
 Definition current (it : iter) : option (key * val) := node_kv (i_node it).
+
+(* a whole forward walk: Next until it reports exhaustion *)
+Fixpoint collect_next (fuel : nat) (it : iter) : list (key * val) :=
+  match fuel with
+  | O => []
+  | S f => let '(it', b) := next it in
+           if b then match current it' with Some e => e :: collect_next f it' | None => [] end
+           else []
+  end.
+
 
 (* ------------------------------------------------------------- histories *)
 
